@@ -34,7 +34,7 @@ type c12 struct {
 func (*c12) ID() string    { return "C12" }
 func (*c12) Level() string { return "exploration" }
 func (*c12) Rule() string {
-	return "call sequences over {Next, Scan, Err, Close} issued from one goroutine against a fresh interpreter, for 16 query kinds (between/3 up to max_integer, 0/1/2/3 answers via member/2, three answers of which the middle one leaves X unbound, one deterministic answer, throw/1 after 0/1/2 answers, a built-in type error after 1 answer, repeat = infinite, 2 answers then infinite; every answer is preceded by a write/1 of the answer). quick: ALL sequences of length <= 5 per kind + a seeded sample of 3000 of length 6 + for 6 pairs of kinds ALL interleavings of two sequences of length <= 2 on two open Solutions of one interpreter + a seeded sample of 4000 interleavings of two sequences of length 3 over all pairs of kinds. thorough: ALL sequences of length <= 7 per kind and of length 8 for 3 kinds, ALL interleavings of two sequences of length <= 2 for all 121 pairs of kinds and of length <= 3 for 3 pairs; the sequences of length <= 4, the length <= 2 interleavings of the 6 pairs and every 61st longer interleaving run a second time in a worker built with -race. The worker then closes whatever the sequence left open and waits for the goroutine count to return to its baseline. Every Scan is repeated into a destination (struct with an interface{} field) that already received the earlier answers of that Solutions and must report the same value. QuerySolution: every kind x every sequence over {Scan, Err} (quick: length <= 3, thorough: <= 5, incl. no call at all): Err nil iff there is an answer, Scan = first answer, goroutine count back at its baseline although the caller has nothing to close. Oracle: sequential model (Next true once per answer in order, then false; false after error/Close; Scan = current answer; Err = nil until the error was reached; Close nil once then ErrClosed; user_output is a prefix of the query's write stream, contains the writes every returned Next depended on, and does not grow after Close; no library goroutine parked in a channel operation survives Close); blocking = runtime deadlock detector ('all goroutines are asleep'), panics = process death or recovered panic of the call. Non-trivial: the requested sequence contains a call made after that Solutions had reached a terminal state (exhausted / error / closed); distinct by (kinds, sequences, merge order)."
+	return "call sequences over {Next, Scan, Err, Close} issued from one goroutine against a fresh interpreter, for 17 query kinds (member/2 on an open list = infinite, between/3 up to max_integer, 0/1/2/3 answers via member/2, three answers of which the middle one leaves X unbound, one deterministic answer, throw/1 after 0/1/2 answers, a built-in type error after 1 answer, repeat = infinite, 2 answers then infinite; every answer is preceded by a write/1 of the answer). quick: ALL sequences of length <= 5 per kind + a seeded sample of 3000 of length 6 + for 6 pairs of kinds ALL interleavings of two sequences of length <= 2 on two open Solutions of one interpreter + a seeded sample of 4000 interleavings of two sequences of length 3 over all pairs of kinds. thorough: ALL sequences of length <= 7 per kind and of length 8 for 3 kinds, ALL interleavings of two sequences of length <= 2 for all 121 pairs of kinds and of length <= 3 for 3 pairs; the sequences of length <= 4, the length <= 2 interleavings of the 6 pairs and every 61st longer interleaving run a second time in a worker built with -race. The worker then closes whatever the sequence left open and waits for the goroutine count to return to its baseline. Every Scan is repeated into a destination (struct with an interface{} field) that already received the earlier answers of that Solutions and must report the same value. QuerySolution: every kind x every sequence over {Scan, Err} (quick: length <= 3, thorough: <= 5, incl. no call at all): Err nil iff there is an answer, Scan = first answer, goroutine count back at its baseline although the caller has nothing to close. Oracle: sequential model (Next true once per answer in order, then false; false after error/Close; Scan = current answer; Err = nil until the error was reached; Close nil once then ErrClosed; user_output is a prefix of the query's write stream, contains the writes every returned Next depended on, and does not grow after Close; no library goroutine parked in a channel operation survives Close); blocking = runtime deadlock detector ('all goroutines are asleep'), panics = process death or recovered panic of the call. Non-trivial: the requested sequence contains a call made after that Solutions had reached a terminal state (exhausted / error / closed); distinct by (kinds, sequences, merge order)."
 }
 func (*c12) Assumptions() []string {
 	return []string{
@@ -92,7 +92,7 @@ func (m *c12Model) stream(n int) string {
 	return sb.String()
 }
 
-var c12Kinds = []string{"ans0", "ans1", "ans2", "ans3", "det1", "throw0", "throw1", "throw2", "typeerr1", "inf", "infdet", "cut1", "cutalt", "goeager3", "gap3", "bmax2"}
+var c12Kinds = []string{"ans0", "ans1", "ans2", "ans3", "det1", "throw0", "throw1", "throw2", "typeerr1", "inf", "infdet", "cut1", "cutalt", "goeager3", "gap3", "bmax2", "infmem"}
 
 // symbols: Solutions A works with atoms, B with integers, so that bytes on the shared user_output can be
 // attributed to the query that wrote them.
@@ -157,6 +157,11 @@ func c12Query(kind string, slot int) (string, *c12Model) {
 			return fmt.Sprintf("sub_atom(%s, _, 1, _, X), put_char(user_output, X).", txt), m
 		}
 		return fmt.Sprintf("sub_atom('%s', _, 1, _, Y), atom_codes(Y, [C]), X is C - 48, put_char(user_output, Y).", txt), m
+	case kind == "infmem":
+		// infinitely many answers from a library predicate on an open list (every answer leaves X unbound; writes nothing)
+		l := c12Step{Kind: 'a', Val: c12Unbound}
+		m.Loop = &l
+		return "member(X, _).", m
 	case kind == "bmax2":
 		// two answers enumerated by between/3 up to the largest integer: exhausted after them (writes nothing)
 		m.Steps = []c12Step{{Kind: 'a', Val: "9223372036854775806"}, {Kind: 'a', Val: "9223372036854775807"}, {Kind: 'x'}}
